@@ -22,6 +22,15 @@ class UserErr(Exception):
         self.code = code
 
 
+class UserStop(StopIteration):
+    """a user exception that happens to be a StopIteration (e.g. next() on an exhausted iterator in a
+    callback): it must propagate like any other exception"""
+
+    def __init__(self, code):
+        super().__init__(code)
+        self.code = code
+
+
 class Opq:
     """An arbitrary object with a chosen truthiness."""
 
@@ -103,7 +112,7 @@ def sidx(state):
 
 def exn_json(e):
     from statemachine.exceptions import InvalidDefinition, InvalidStateValue, TransitionNotAllowed
-    if isinstance(e, UserErr):
+    if isinstance(e, (UserErr, UserStop)):
         return ["u", e.code]
     if isinstance(e, TransitionNotAllowed):
         return ["na", evidx(e.event), sidx(e.state)]
@@ -185,8 +194,20 @@ def _enter(p, kind, k, isg, kw):
     script = scripts[n] if n < len(scripts) else dflt
     if tag in getattr(R, "mute_tags", ()):
         return R, dict(script, a=[a for a in script["a"] if a[0] != "raise"]), m    # unrelated machine (C16): not logged
+    # the injected event_data must describe the same event as the individual built-in parameters
+    ed = kw.get("event_data")
+    consistent = True
+    if ed is not None:
+        for nm in ("state", "source", "target", "event", "machine", "model", "transition"):
+            if nm in kw:
+                v = getattr(ed, nm, kw[nm])
+                if v is not kw[nm] and v != kw[nm]:
+                    consistent = False
+        tr = kw.get("transition")
+        if tr is not None and "source" in kw and "target" in kw and (tr.source is not kw["source"] or tr.target is not kw["target"]):
+            consistent = False
     R.log.append(["c", p, kind, k, bool(isg), evidx(kw.get("event")), sidx(kw.get("source")),
-                  sidx(kw.get("target")), sidx(kw.get("state")), R.csv(m), kw.get("tag", 0) or 0,
+                  sidx(kw.get("target")), sidx(kw.get("state")) if consistent else 901, R.csv(m), kw.get("tag", 0) or 0,
                   0 if isg else _depth()])
     return R, script, m
 
@@ -207,6 +228,8 @@ def _cb(p, kind, k, isg, kw):
                 r = None
             R.log.append(["n", "v", to_json(r)])
         else:
+            if RUN.sc.get("stop_iter") and not RUN.sc.get("async") and act[1] % 2:
+                raise UserStop(act[1])
             raise UserErr(act[1])
     return from_json(script["r"])
 
@@ -262,6 +285,12 @@ def state_value(sc, i):
 
 
 def render_source(sc):
+    if sc.get("any_group"):
+        # the last group of transitions (one from every non-final state to one target, same arguments)
+        # is written as target.from_.any(...)
+        n_any = sc["any_group"]
+        sc = dict(sc, trans=sc["trans"][:-n_any], any_render=sc["trans"][-1], any_group=0,
+                  mixed=(sc["mixed"][:-n_any] if sc.get("mixed") else sc.get("mixed")))
     gn = guard_names(sc)
     acoros = {tuple(x) for x in sc.get("async", [])}
     out = ["from statemachine import State, StateMachine",
@@ -286,8 +315,10 @@ def render_source(sc):
                 ls.append(f"{ind}def {cbname(nm)}(self, **kw): return _cb({p}, {kind}, {k}, {isg}, kw)")
         return ls
 
+    callables_ = {tuple(nm) for nm in sc.get("callable_names", [])}    # passed as function objects, not by name
+
     def names(l):
-        return "[" + ", ".join(repr(cbname(nm)) for nm in l) + "]"
+        return "[" + ", ".join(("fn_" + cbname(nm)) if tuple(nm) in callables_ else repr(cbname(nm)) for nm in l) + "]"
 
     style = sc.get("evstyle", "str")          # how events are attached: str / list / obj / assign / event_ctor
     tstyle = sc.get("tstyle", "to")           # how transitions are created: to / from / multi / multi_from
@@ -299,8 +330,15 @@ def render_source(sc):
     def S(i):
         return f"s{i}" if sstyle == "attr" else f"states.s{i}"
 
+    state_decor = [x for x in sc.get("state_decor", [])] if sstyle == "attr" else []
+
     def state_args(i):
         st = sc["states"][i]
+        st = {"enter": list(st["enter"]), "exit": list(st["exit"])}
+        for i_, g_, nm_ in state_decor:
+            if i_ == i:
+                idx = max(j for j, n_ in enumerate(st[g_]) if list(n_) == list(nm_))
+                del st[g_][idx]
         args = []
         if sc.get("values") and sc["values"][i] is not None:
             args.append(f"value={from_json(sc['values'][i])!r}")
@@ -378,6 +416,26 @@ def render_source(sc):
             del t["on"][idx]
         return t
 
+    emitted = []
+
+    def emit_decorated():
+        """`@tr.before / .on / ... def f` and `@state.enter / .exit def f`: one def per name, decorators stacked"""
+        if emitted:
+            return
+        emitted.append(1)
+        by_name = {}
+        for j_, g, nm in decor_cbs:
+            by_name.setdefault(tuple(nm), []).append(f"tr{j_}.{'validators' if g == 'val' else g}")
+        for i_, g, nm in state_decor:
+            by_name.setdefault(tuple(nm), []).append(f"{S(i_)}.{g}")
+        for nm, uses in by_name.items():
+            for u in uses:
+                body.append(f"    @{u}")
+            if (0, nm[0], nm[1]) in acoros:
+                body.append(f"    async def {cbname(list(nm))}(self, **kw): return await _acb(0, {nm[0]}, {nm[1]}, {nm in gn}, kw)")
+            else:
+                body.append(f"    def {cbname(list(nm))}(self, **kw): return _cb(0, {nm[0]}, {nm[1]}, {nm in gn}, kw)")
+
     def same_kw(t, u):
         return all(t[k] == u[k] for k in ("ev", "int", "val", "cond", "before", "on", "after"))
 
@@ -434,13 +492,7 @@ def render_source(sc):
                 body.append(f"    def {evname(e)}(self, **kw): return _cb({p_}, {kind_}, {k_}, False, kw)")
             else:
                 body.append(f"    {evname(e)} = {tl_}")
-        by_name = {}
-        for j_, g, nm in decor_cbs:
-            by_name.setdefault(tuple(nm), []).append((j_, g))
-        for nm, uses in by_name.items():
-            for j_, g in uses:
-                body.append(f"    @tr{j_}.{'validators' if g == 'val' else g}")
-            body.append(f"    def {cbname(list(nm))}(self, **kw): return _cb(0, {nm[0]}, {nm[1]}, {nm in gn}, kw)")
+        emit_decorated()
         body.append("    del " + ", ".join(f"tr{j}" for j in range(len(trs))))
     elif style == "event_ctor":
         imports.add("Event")
@@ -448,6 +500,7 @@ def render_source(sc):
             tl = " | ".join(f"tr{j}" for j, t in enumerate(trs) if e in t["ev"])
             body.append(f"    {evname(e)} = Event({tl}, name={evname(e)!r})")
         body.append("    del " + ", ".join(f"tr{j}" for j in range(len(trs))))
+    emit_decorated()          # (styles other than "assign": state decorators only)
     if sc.get("any_render"):
         # one transition from every non-final state, written as target.from_.any(...) under its own event
         a = sc["any_render"]
@@ -457,6 +510,11 @@ def render_source(sc):
     if "States" in imports:
         pre.insert(0, "from statemachine.states import States")
     out += pre
+    for nm in sorted(callables_):
+        if (0, nm[0], nm[1]) in acoros:
+            out.append(f"async def fn_{cbname(list(nm))}(**kw): return await _acb(0, {nm[0]}, {nm[1]}, {nm in gn}, kw)")
+        else:
+            out.append(f"def fn_{cbname(list(nm))}(**kw): return _cb(0, {nm[0]}, {nm[1]}, {nm in gn}, kw)")
     if inherit:
         out.append("class Base(StateMachine):")
         out += body
@@ -466,7 +524,8 @@ def render_source(sc):
     else:
         out.append("class M(StateMachine):")
         out += body
-    decor_defined = {tuple(nm) for _j, _g, nm in decor_cbs} | ({tuple(decor_ev[1])} if decor_ev else set())
+    decor_defined = ({tuple(nm) for _j, _g, nm in decor_cbs} | ({tuple(decor_ev[1])} if decor_ev else set())
+                     | {tuple(nm) for _i, _g, nm in state_decor} | callables_)
     out += methods(0, [nm for nm in sc["provs"][0] if tuple(nm) not in decor_defined])
     if inst:
         out.append("    def __init__(self, *a, **k):")
@@ -476,8 +535,21 @@ def render_source(sc):
     if sc.get("falsy_machine"):
         out.append("    def __len__(self): return 0      # a machine that evaluates as false")
     out.append("")
-    out.append("class Mdl:")
-    out.append("    def __init__(self): self.state = None")
+    if sc.get("mixin"):
+        # the model is a MachineMixin: it creates its machine itself (by registered class name) and gets
+        # the event triggers bound as its own methods
+        out.append("from statemachine.mixins import MachineMixin")
+        out.append("import statemachine.registry as _reg")
+        out.append("_reg._initialized = True      # no Django project in this process: skip its module autodiscovery")
+        out.append("class Mdl(MachineMixin):")
+        out.append("    state_machine_name = __name__ + '.M'      # fully qualified: <module>.<class>")
+        out.append("    state_machine_attr = 'sm'")
+        out.append("    bind_events_as_methods = True")
+        out.append("    def __init__(self): self.state = None")
+        out.append("    def boot(self): MachineMixin.__init__(self)")
+    else:
+        out.append("class Mdl:")
+        out.append("    def __init__(self): self.state = None")
     if sc.get("falsy_model"):
         out.append("    def __bool__(self): return False      # a model that evaluates as false")
     out += methods(1, sc["provs"][1])
@@ -524,7 +596,11 @@ def render_source(sc):
     if sc.get("allow"):
         kw.append("allow_event_without_transition=True")
     out.append("def construct(model, listeners):")
-    out.append(f"    return M(model{''.join(', ' + k for k in kw)}, listeners=listeners)")
+    if sc.get("mixin"):
+        out.append("    model.boot()")
+        out.append("    return model.sm")
+    else:
+        out.append(f"    return M(model{''.join(', ' + k for k in kw)}, listeners=listeners)")
     return "\n".join(out) + "\n"
 
 
@@ -576,7 +652,34 @@ def call_style(sm, style, name, tag, ns):
         if hasattr(other, name):
             return getattr(other, name)(tag=tag)
         return sm.send(name, tag=tag)
+    if style == "mixin":                      # the trigger MachineMixin bound onto the model
+        if hasattr(sm.model, name):
+            return getattr(sm.model, name)(tag=tag)
+        return sm.send(name, tag=tag)
     raise ValueError(style)
+
+
+def make_host_wrap():
+    """every operation of the scenario's machine is performed from inside a running `on` callback of an
+    unrelated machine (whose own processing loop is therefore active around it)"""
+    from statemachine import State, StateMachine
+    box = {}
+
+    def wrap(ns, thunk):
+        if "host" not in box:
+            class Host(StateMachine):
+                idle = State(initial=True)
+                busy = State()
+                work = idle.to(busy) | busy.to(idle)
+
+                def on_work(self, thunk):
+                    return thunk()
+
+                def on_enter_busy(self):
+                    return None
+            box["host"] = Host()
+        return box["host"].send("work", thunk=thunk)       # the on-callback's value is the event's result
+    return wrap
 
 
 class _Workers:
@@ -646,28 +749,29 @@ def run_impl(sc):
     import gc
     import threading
     RUN = R = Run(sc)
-    ns = {}
+    ns = {"__name__": "scn_main"}          # the scenario's classes live in a module of their own
     _clear_signature_cache()
     driver = sc.get("driver", "plain")
+    wrap_ = WRAP
+    if wrap_ is None and sc.get("hosted") and driver == "plain" and not sc.get("async"):
+        wrap_ = make_host_wrap()
     with warnings.catch_warnings(record=True) as wlist:
         warnings.simplefilter("always")
 
         async def history():
             exec(compile(render_source(sc), "<scenario>", "exec"), ns)  # noqa: S102
             R.cls = ns["M"]
-            model = ns["Mdl"]()
+            box = {"sm": None, "model": ns["Mdl"](), "listeners": ns["LISTENERS"]}
             if sc.get("field0") is not None:
-                model.state = state_value(sc, sc["field0"])
-            listeners = ns["LISTENERS"]
-            box = {"sm": None}
+                box["model"].state = state_value(sc, sc["field0"])
             obs = []
 
             def assign_attrs():
                 """plain-attribute providers: give every attribute its value (after attachment)"""
                 late_ = sorted(sc.get("late", []))
                 cons = [p for p in range(2, len(sc["provs"])) if p not in late_]
-                objs = {0: box["sm"], 1: model}
-                objs.update({p: o for p, o in zip(cons, listeners)})
+                objs = {0: box["sm"], 1: box["model"]}
+                objs.update({p: o for p, o in zip(cons, box["listeners"])})
                 objs.update(ns["LATE"])
                 for p, kind, k, _scripts, dflt in sc["tbl"]:
                     if kind == 0 and k >= 500 and objs.get(p) is not None:
@@ -677,7 +781,7 @@ def run_impl(sc):
                 sm = box["sm"]
                 if op[0] == "construct":
                     box["sm"] = None
-                    box["sm"] = ns["construct"](model, listeners)
+                    box["sm"] = ns["construct"](box["model"], box["listeners"])
                     assign_attrs()
                     return None
                 if op[0] == "send":
@@ -692,6 +796,12 @@ def run_impl(sc):
                 if op[0] == "add":
                     sm.add_listener(*[ns["LATE"][p] for p in op[1]])
                     assign_attrs()
+                    return None
+                if op[0] == "clone":
+                    # the history goes on with a deep copy of the machine (and of its model and listeners)
+                    import copy
+                    c = copy.deepcopy(sm)
+                    box["sm"], box["model"] = c, c.model
                     return None
                 raise ValueError(op)
 
@@ -726,14 +836,14 @@ def run_impl(sc):
                     if driver == "threads":
                         r = workers.call(len(obs) % 3, lambda op=op: step(op))
                     else:
-                        r = step(op) if WRAP is None else WRAP(ns, lambda op=op: step(op))
+                        r = step(op) if wrap_ is None else wrap_(ns, lambda op=op: step(op))
                         if driver == "loop" and (asyncio.iscoroutine(r) or isinstance(r, asyncio.Future)):
                             r = await r
                     out = ["v", to_json(r)]
                 except Exception as e:  # noqa: BLE001
                     out = ["x", exn_json(e)]
                 sm = box["sm"]
-                fv = getattr(model, "state", None)
+                fv = getattr(box["model"], "state", None)
                 fst = R.cls.states_map.get(fv) if fv is not None else None
                 field = None if fv is None else (sidx(fst) if fst is not None else 900)
                 allowed = None
